@@ -187,9 +187,13 @@ func (w *World) Dial(info *simnet.DialInfo) (simnet.DialOutcome, func(*simnet.En
 	w.mu.Lock()
 	w.Conns = append(w.Conns, cr)
 	w.mu.Unlock()
-	h := w.Hosts[strings.ToLower(info.Host)+":"+info.Port]
+	lookup := strings.ToLower(info.Host)
+	if i := strings.IndexByte(lookup, '%'); i >= 0 && strings.Contains(lookup[:i], ":") {
+		lookup = lookup[:i] // an IPv6 literal with a zone is the same address
+	}
+	h := w.Hosts[lookup+":"+info.Port]
 	if h == nil {
-		h = w.Hosts[strings.ToLower(info.Host)]
+		h = w.Hosts[lookup]
 	}
 	if h == nil {
 		cr.Outcome = "no-such-host"
